@@ -7,12 +7,12 @@ from typing import Any
 from jinja2 import nodes as jnodes
 
 from .. import tplq
-from ..astutil import (ERROR_CLASSES, Locals, anon, call_name, cfg_of, constructs_error, error_names, local_names, names_in, norm, receivers,
+from ..astutil import (ERROR_CLASSES, Locals, anon, call_name, cfg_of, constructs_error, error_names, local_names, names_in, norm,
                        region, returns_error, role_anon, short, where)
 from ..jinja_interp import expr_text
 from ..cfg import CFG, walk_own
 from ..core import PKG, Report
-from .registries import check_module_files, check_registries
+from .registries import _bind_call, _inline_locals, check_module_files, check_registries
 
 LEVEL = ("error discipline and accounting over all paths: no value whose static type includes a ParseError/PropertyError is "
          "discarded; every path through one iteration of a loop over items of the document (operations, component schemas, response "
@@ -52,7 +52,7 @@ def run(rep: Report, ctx: Any) -> str:
         ann = norm(f.node.returns) if f.node.returns is not None else ""
         if any(e in ann for e in ERROR_CLASSES):
             returns_err.add(f.name)
-    rep.floor("functions_returning_errors", len(returns_err), 25)
+    rep.floor("functions_returning_errors", len(returns_err), 20)
     n_calls = 0
     for f in ix.all_functions:
         for st in ast.walk(f.node):
@@ -77,7 +77,7 @@ def run(rep: Report, ctx: Any) -> str:
                 used = any(isinstance(n, ast.Name) and n.id == first and isinstance(n.ctx, ast.Load) for n in ast.walk(f.node))
                 rep.check(used, "R07.1", f"{short(f)}::{first} = {cn}()", f"`{first}` may hold an error and is never read", where(f, st),
                           lhs=norm(st)[:70], rhs="read afterwards")
-    rep.floor("error_returning_call_sites", n_calls, 30)
+    rep.floor("error_returning_call_sites", n_calls, 29)
 
     # ---- R07.2 -----------------------------------------------------------------------------------------------------------
     n_ends = 0
@@ -116,17 +116,17 @@ def run(rep: Report, ctx: Any) -> str:
                                                        "there is no item", nontrivial=False)
                 else:
                     rep.ok("R07.2", key, gtxt[:80], "every path records a diagnostic or keeps the item")
-    rep.floor("document_loops", n_loops, 8)
-    rep.floor("loop_skips", n_ends, 14)
+    rep.floor("document_loops", n_loops, 4)
+    rep.floor("loop_skips", n_ends, 16)
     rep.require(set(ENUMERATED) <= kinds_seen, f"a loop over each kind of item the property enumerates {ENUMERATED}; found {sorted(kinds_seen)}")
     rep.observe("Endpoint.add_parameters: a parameter without `schema` (e.g. with `content`) is skipped without a diagnostic")
 
     # ---- R07.3 ---------------------------------------------------------------------------------------------------------------
     fd = ix.func("EndpointCollection.from_data")
-    hdrs = [n for n in ast.walk(fd.node) if isinstance(n, ast.Assign) and any(norm(t).endswith(".header") for t in n.targets)]
-    rep.check(len(hdrs) >= 2 and all("method" in norm(h.value) and "path" in norm(h.value) for h in hdrs), "R07.3",
+    bad_hdrs, n_hdrs = _unlabelled_endpoint_errors(ix, fd, cfgs)
+    rep.check(n_hdrs >= 1 and not bad_hdrs, "R07.3",
               "EndpointCollection.from_data::error-headers", "endpoint diagnostics do not name METHOD and path on both routes", where(fd, fd.node),
-              lhs=[norm(h.value)[:60] for h in hdrs], rhs="f'... {method.upper()} {path} ...' x2")
+              lhs=bad_hdrs or n_hdrs, rhs="every error attached to a collection got a header computed from the method and the path before")
     us = ix.func("schemas.update_schemas_with_data")
     rep.check(any(isinstance(n, ast.Assign) and norm(n.targets[0]).endswith(".header") and "ref_path" in names_in(n.value) for n in ast.walk(us.node)),
               "R07.3", "update_schemas_with_data::error-names-reference", "schema errors do not carry the reference path", where(us, us.node))
@@ -210,13 +210,9 @@ def run(rep: Report, ctx: Any) -> str:
 
     # ---- R07.5 ---------------------------------------------------------------------------------------------------------------------
     ge = ix.func("Project._get_errors")
-    rets_ge = [n for n in ast.walk(ge.node) if isinstance(n, ast.Return) and isinstance(n.value, ast.Name)]
-    acc = {r.value.id for r in rets_ge}
-    fed = [norm(c.args[0]) for r, c in receivers(ge.node, "extend") if r in acc and c.args]
-    coll_ok = any(isinstance(lp, ast.For) and "endpoint_collections_by_tag" in norm(lp.iter) and
-                  any(r in acc and c.args and norm(c.args[0]) == f"{norm(lp.target)}.parse_errors" for r, c in receivers(lp, "extend"))
-                  for lp in ast.walk(ge.node))
-    rep.check(coll_ok and "self.openapi.errors" in fed and "self.errors" in fed and bool(rets_ge), "R07.5",
+    fed = sorted(_returned_elements(ge.node))
+    want = ["<each self.openapi.endpoint_collections_by_tag>.parse_errors", "self.errors", "self.openapi.errors"]
+    rep.check(all(w in fed for w in want), "R07.5",
               "Project._get_errors::concatenates", "an error list is missing from the aggregate", where(ge, ge.node), lhs=fed,
               rhs="every collection's parse_errors, self.openapi.errors, self.errors")
     gd = ix.func("GeneratorData.from_dict")
@@ -229,18 +225,18 @@ def run(rep: Report, ctx: Any) -> str:
     returned = {norm(e) for e in tg.elts[1:]} if isinstance(tg, ast.Tuple) else set()
     gcalls = [c for c in ast.walk(gd.node) if isinstance(c, ast.Call) and call_name(c) == "GeneratorData"]
     ev = next((k.value for c in gcalls for k in c.keywords if k.arg == "errors"), None)
-    parts = set()
-    if isinstance(ev, ast.BinOp) and isinstance(ev.op, ast.Add):
-        parts = {norm(ev.left), norm(ev.right)}
-    rep.check(None not in accs and returned == accs and parts == {f"{a}.errors" for a in accs}, "R07.5", "GeneratorData.from_dict::errors",
+    # whichever way the two lists are put together (+, unpacking, chain, an accumulator): all elements of both
+    parts = _elements(ev, gd.node, {}) if ev is not None else set()
+    rep.check(None not in accs and returned == accs and {f"{a}.errors" for a in accs} <= parts, "R07.5", "GeneratorData.from_dict::errors",
               "schema or parameter errors are not handed to the project", where(gd, gd.node), lhs=sorted(parts), rhs=sorted(f"{a}.errors" for a in accs if a))
     b = ix.func("Project.build")
     rets = [n for n in ast.walk(b.node) if isinstance(n, ast.Return)]
-    rep.check(any(norm(r.value) == "self._get_errors()" for r in rets if r.value is not None), "R07.5", "Project.build::returns-errors",
+    rep.check(any(norm(_inline_locals(r.value, b.node)) == "self._get_errors()" for r in rets if r.value is not None), "R07.5", "Project.build::returns-errors",
               "build() does not return the aggregated errors", where(b, b.node))
     g = ix.func(f"{PKG}.generate")
     projs = set(Locals(g.node).bound_from(lambda v: v.startswith("_get_project_for_url_or_path("), "assign"))
-    rep.check(any(isinstance(n, ast.Return) and n.value is not None and any(norm(n.value) == f"{p_}.build()" for p_ in projs) for n in ast.walk(g.node)),
+    rep.check(any(isinstance(n, ast.Return) and n.value is not None and any(norm(_inline_locals(n.value, g.node, keep=projs)) == f"{p_}.build()" for p_ in projs)
+                  for n in ast.walk(g.node)),
               "R07.5", "generate::returns-build", "generate() does not return what build() returns", where(g, g.node))
 
     # ---- R07.6 -----------------------------------------------------------------------------------------------------------------------
@@ -262,11 +258,31 @@ def run(rep: Report, ctx: Any) -> str:
               "EndpointCollection.from_data::one-collection-per-tag", "collections are not derived one per tag", where(fd, fd.node))
     # both outcomes reach every collection
     cname = norm(colls[0].targets[0]) if colls else ""
-    fan = [lp for lp in ast.walk(fd.node) if isinstance(lp, ast.For) and norm(lp.iter) == cname]
-    kinds = {r.rsplit(".", 1)[-1] for lp in fan for r, _ in receivers(lp, "append")}
-    rep.check(len(fan) >= 3 and kinds == {"parse_errors", "endpoints"}, "R07.6", "EndpointCollection.from_data::all-collections-updated",
-              "endpoint / errors are not attached to every collection", where(fd, fd.node), lhs=[len(fan), sorted(kinds)],
-              rhs="three loops over the collections: rejected endpoint, endpoint warnings, endpoint")
+    attached: dict[str, list[bool]] = {}
+    # the list of collections as each function spells it: the local of from_data, or the parameter of a private helper that receives it
+    spelled: list[tuple[Any, set[str]]] = [(fd, {cname} if cname else set())]
+    for g in region(ix, fd, depth=1):
+        if g is not fd:
+            spelled.append((g, {p_ for c in ast.walk(fd.node) if isinstance(c, ast.Call) and call_name(c).rsplit(".", 1)[-1] == g.name
+                                for p_, a in _bind_call(g, c).items() if cname and norm(a) == cname}))
+    for g, lists in spelled:
+        for st in _own_walk(g.node):
+            if not isinstance(st, ast.Expr):
+                continue
+            for c in walk_own(st):
+                if isinstance(c, ast.Call) and isinstance(c.func, ast.Attribute) and c.func.attr in ("append", "extend") and \
+                        isinstance(c.func.value, ast.Attribute) and c.func.value.attr in ("parse_errors", "endpoints"):
+                    # attached to every collection of the operation: the receiver is the variable of a loop over the whole list and
+                    # the statement is executed on every iteration of it (directly in the loop body, which is never cut short)
+                    recv = c.func.value.value
+                    lp = next((lp for lp in _own_walk(g.node) if isinstance(lp, ast.For) and any(s_ is st for s_ in lp.body)), None)
+                    attached.setdefault(c.func.value.attr, []).append(
+                        lp is not None and norm(lp.iter) in lists and isinstance(recv, ast.Name) and recv.id in _targets(lp.target)
+                        and not any(isinstance(x, (ast.Break, ast.Continue, ast.Return)) for s_ in lp.body for x in ast.walk(s_)))
+    rep.check(set(attached) == {"parse_errors", "endpoints"} and all(all(v) for v in attached.values()), "R07.6",
+              "EndpointCollection.from_data::all-collections-updated",
+              "endpoint / errors are not attached to every collection", where(fd, fd.node), lhs={k: v for k, v in sorted(attached.items())},
+              rhs="every append to a collection's parse_errors / endpoints happens once per element of the list of collections; both kinds occur")
     # method list exhaustive
     pi = ix.cls("PathItem")
     ops = sorted(f_ for f_, ann in ix.all_fields(pi).items() if ann is not None and "Operation" in norm(ann))
@@ -285,6 +301,262 @@ def run(rep: Report, ctx: Any) -> str:
               f"the method list {meth} differs from the Operation fields of PathItem {ops}", where(fd, fd.node), lhs=meth, rhs=ops)
     rep.not_decided.append("the census itself; response media types other than the first supported one are ignored by design")
     return LEVEL
+
+
+# ---- what a function returns as a list: the collections all of whose elements end up in it ---------------------------------------------
+def _strip_views(e: ast.AST) -> ast.AST:
+    """the collection behind a view or an element-wise wrapper: X.values() / list(X) / sorted(X) -> X"""
+    while isinstance(e, ast.Call):
+        if isinstance(e.func, ast.Attribute) and e.func.attr in ("values", "copy") and not e.args:
+            e = e.func.value
+        elif call_name(e) in _ELEMENTWISE - {"enumerate"} and len(e.args) == 1:
+            e = e.args[0]
+        else:
+            break
+    return e
+
+
+def _canon(e: ast.AST, env: dict[str, str]) -> str:
+    """text of e with the variables of enclosing loops / generators replaced by `<each ITER>`"""
+    import copy
+
+    class R(ast.NodeTransformer):
+        def visit_Name(self, n: ast.Name) -> ast.AST:
+            return ast.copy_location(ast.Name(id=env[n.id], ctx=n.ctx), n) if n.id in env else n
+
+    return norm(R().visit(copy.deepcopy(_strip_views(e))))
+
+
+def _bind_each(target: ast.AST, it: ast.AST, env: dict[str, str]) -> dict[str, str]:
+    """env extended by the loop / generator variable(s): for x in IT -> x is <each IT>; for k, v in IT.items() -> v is <each IT>;
+    for i, x in enumerate(IT) -> x is <each IT>; sorted() / list() / reversed() around IT go through the same elements"""
+    out = dict(env)
+    while isinstance(it, ast.Call) and call_name(it) in _ELEMENTWISE - {"enumerate"} and len(it.args) >= 1:
+        it = it.args[0]
+    pair = isinstance(target, ast.Tuple) and len(target.elts) == 2
+    if isinstance(target, ast.Name):
+        out[target.id] = f"<each {_canon(it, env)}>"
+    elif pair and isinstance(it, ast.Call) and call_name(it) == "enumerate" and it.args:
+        return _bind_each(target.elts[1], it.args[0], env)
+    elif pair and isinstance(it, ast.Call) and isinstance(it.func, ast.Attribute) and it.func.attr == "items" and isinstance(target.elts[1], ast.Name):
+        out[target.elts[1].id] = f"<each {_canon(it.func.value, env)}>"
+    return out
+
+
+def _elements(e: ast.AST, fn: ast.AST, env: dict[str, str], depth: int = 4) -> set[str]:
+    """canonical texts of the collections ALL of whose elements are elements of the list denoted by e (nothing filtered, nothing
+    conditional): concatenation, unpacking, extend / += on an accumulator, (nested) comprehensions and chain() alike"""
+    if depth <= 0:
+        return set()
+    e = _strip_views(e)
+    if isinstance(e, (ast.List, ast.Tuple)):
+        return {x for el in e.elts if isinstance(el, ast.Starred) for x in _elements(el.value, fn, env, depth)}
+    if isinstance(e, ast.BinOp) and isinstance(e.op, ast.Add):
+        return _elements(e.left, fn, env, depth) | _elements(e.right, fn, env, depth)
+    if isinstance(e, (ast.ListComp, ast.GeneratorExp)):
+        if any(g.ifs for g in e.generators):
+            return set()
+        env2 = env
+        for g in e.generators:
+            env2 = _bind_each(g.target, g.iter, env2)
+        # [x for a in A for x in a.part]: the elements of every a.part; [y for y in Y]: the elements of Y
+        last = e.generators[-1]
+        if isinstance(e.elt, ast.Name) and isinstance(last.target, ast.Name) and e.elt.id == last.target.id:
+            env1 = env
+            for g in e.generators[:-1]:
+                env1 = _bind_each(g.target, g.iter, env1)
+            return _elements(last.iter, fn, env1, depth - 1)
+        return set()
+    if isinstance(e, ast.Call):
+        cn = call_name(e)
+        if cn in ("chain", "itertools.chain"):
+            return {x for a in e.args for x in _elements(a, fn, env, depth - 1)}
+        if cn in ("chain.from_iterable", "itertools.chain.from_iterable") and len(e.args) == 1 and \
+                isinstance(e.args[0], (ast.ListComp, ast.GeneratorExp)) and not any(g.ifs for g in e.args[0].generators):
+            env2 = env
+            for g in e.args[0].generators:
+                env2 = _bind_each(g.target, g.iter, env2)
+            return {_canon(e.args[0].elt, env2)}
+        if cn == "sum" and len(e.args) == 2 and isinstance(e.args[0], (ast.ListComp, ast.GeneratorExp)) and not any(g.ifs for g in e.args[0].generators):
+            env2 = env
+            for g in e.args[0].generators:
+                env2 = _bind_each(g.target, g.iter, env2)
+            return {_canon(e.args[0].elt, env2)} | _elements(e.args[1], fn, env, depth - 1)
+        return {_canon(e, env)}
+    if isinstance(e, ast.Name) and e.id not in env and e.id in Locals(fn).defs:
+        lc = Locals(fn)
+        # what the name is bound to (whichever binding is in force: only what all of them contain), plus everything added to it
+        bound = [_elements(v, fn, _loop_env(fn, st), depth - 1) for kind, st, v in lc.defs[e.id] if kind == "assign" and v is not None]
+        out: set[str] = set.intersection(*bound) if bound else set()
+        for kind, st, v in lc.defs[e.id]:
+            if kind == "aug" and isinstance(st, ast.AugAssign) and isinstance(st.op, ast.Add) and _unconditional(fn, st):
+                out |= _elements(v, fn, _loop_env(fn, st), depth - 1)
+        for st in _own_walk(fn):
+            if isinstance(st, ast.Expr) and isinstance(st.value, ast.Call) and isinstance(st.value.func, ast.Attribute) and \
+                    st.value.func.attr == "extend" and isinstance(st.value.func.value, ast.Name) and st.value.func.value.id == e.id and \
+                    len(st.value.args) == 1 and _unconditional(fn, st):
+                out |= _elements(st.value.args[0], fn, _loop_env(fn, st), depth - 1)
+        return out
+    # anything else stands for itself: an attribute, a parameter, the result of a call
+    return {_canon(e, env)}
+
+
+def _ancestors(fn: ast.AST, node: ast.AST) -> list[ast.AST]:
+    """statements of fn that enclose node, outermost first"""
+    out: list[ast.AST] = []
+
+    def find(cur: ast.AST, path: list[ast.AST]) -> bool:
+        for c in ast.iter_child_nodes(cur):
+            if c is node:
+                out.extend(path)
+                return True
+            if find(c, path + [c] if isinstance(c, ast.stmt) else path):
+                return True
+        return False
+
+    find(fn, [])
+    return out
+
+
+def _unconditional(fn: ast.AST, st: ast.AST) -> bool:
+    """st is executed whenever fn runs to its end, once per iteration of the `for` loops around it: nothing but `for` statements
+    encloses it, and none of them is left early"""
+    anc = _ancestors(fn, st)
+    return all(isinstance(a, ast.For) and not a.orelse and not any(isinstance(x, (ast.Break, ast.Continue, ast.Return)) for x in ast.walk(a))
+               for a in anc)
+
+
+def _loop_env(fn: ast.AST, st: ast.AST) -> dict[str, str]:
+    env: dict[str, str] = {}
+    for a in _ancestors(fn, st):
+        if isinstance(a, ast.For):
+            env = _bind_each(a.target, a.iter, env)
+    return env
+
+
+def _returned_elements(fn: ast.AST) -> set[str]:
+    """collections all of whose elements are in the list fn returns (on every return)"""
+    rets = [n for n in _own_walk(fn) if isinstance(n, ast.Return)]
+    if not rets or any(r.value is None for r in rets):
+        return set()
+    sets = [_elements(r.value, fn, {}) for r in rets]
+    return set.intersection(*sets)
+
+
+# ---- endpoint diagnostics carry METHOD and path ------------------------------------------------------------------------------------
+def _text_sources(e: ast.AST | None, fn: ast.AST, depth: int = 4, _seen: "set[str] | None" = None) -> set[str]:
+    """the names whose text goes into the string e: through f-strings, + and %, conditional expressions, string methods
+    (x.upper(), sep.join(xs), fmt.format(..)), str(), and the locals bound to such expressions.  A name that only decides something
+    (a test) or that is an argument of some other call contributes no text."""
+    seen = _seen if _seen is not None else set()
+    if e is None or depth < 0:
+        return set()
+    if isinstance(e, ast.JoinedStr):
+        return {x for v in e.values if isinstance(v, ast.FormattedValue) for x in _text_sources(v.value, fn, depth, seen)}
+    if isinstance(e, ast.BinOp) and isinstance(e.op, (ast.Add, ast.Mod)):
+        return _text_sources(e.left, fn, depth, seen) | _text_sources(e.right, fn, depth, seen)
+    if isinstance(e, ast.IfExp):
+        return _text_sources(e.body, fn, depth, seen) | _text_sources(e.orelse, fn, depth, seen)
+    if isinstance(e, (ast.Tuple, ast.List)):
+        return {x for el in e.elts for x in _text_sources(el, fn, depth, seen)}
+    if isinstance(e, ast.Call):
+        args = [*e.args, *[k.value for k in e.keywords]]
+        if isinstance(e.func, ast.Attribute):
+            return _text_sources(e.func.value, fn, depth, seen) | {x for a in args for x in _text_sources(a, fn, depth, seen)}
+        if call_name(e) in ("str", "repr", "format"):
+            return {x for a in args for x in _text_sources(a, fn, depth, seen)}
+        return set()
+    if isinstance(e, ast.Attribute):
+        root = e
+        while isinstance(root, ast.Attribute):
+            root = root.value
+        return {root.id} if isinstance(root, ast.Name) else set()
+    if isinstance(e, ast.Name):
+        out = {e.id}
+        if e.id not in seen:
+            seen.add(e.id)
+            for kind, _, v in Locals(fn).defs.get(e.id, []):
+                if kind in ("assign", "aug"):
+                    out |= _text_sources(v, fn, depth - 1, seen)
+        return out
+    return set()
+
+
+def _unlabelled_endpoint_errors(ix: Any, fd: Any, cfgs: dict[str, CFG]) -> tuple[list[str], int]:
+    """(errors attached to a collection's parse_errors whose header was not computed from the method and the path, number of attachments).
+    Method and path are found by role: the path is the key the loop over the path items yields, the method is the loop variable that
+    selects the operation from the path item (getattr)."""
+    T = _DocTypes(ix, fd)
+    path_names: set[str] = set()
+    method_names: set[str] = set()
+    for lp in _own_walk(fd.node):
+        if not isinstance(lp, ast.For):
+            continue
+        if "PathItem" in T.of(lp.iter):
+            if isinstance(lp.target, ast.Tuple) and lp.target.elts and isinstance(lp.iter, ast.Call) and isinstance(lp.iter.func, ast.Attribute) \
+                    and lp.iter.func.attr == "items":
+                path_names |= _targets(lp.target.elts[0])
+            elif isinstance(lp.target, ast.Name) and not (isinstance(lp.iter, ast.Call) and isinstance(lp.iter.func, ast.Attribute) and lp.iter.func.attr == "values"):
+                path_names.add(lp.target.id)
+        if isinstance(lp.target, ast.Name) and any(isinstance(c, ast.Call) and call_name(c) == "getattr" and len(c.args) >= 2 and
+                                                   norm(c.args[1]) == lp.target.id for c in ast.walk(lp)):
+            method_names.add(lp.target.id)
+
+    def labelled(v: ast.AST) -> bool:
+        behind = _text_sources(v, fd.node)
+        return bool(behind & path_names) and bool(behind & method_names)
+
+    cfg = cfg_of(fd, cfgs)
+    helpers = {g.name: g for g in region(ix, fd, depth=1) if g is not fd}
+
+    def sets_header(n: object, who: str) -> bool:
+        """statement n gives the error held by local `who` its header, computed from method and path"""
+        if isinstance(n, ast.Assign) and any(isinstance(t, ast.Attribute) and t.attr == "header" and isinstance(t.value, ast.Name) and t.value.id == who
+                                              for t in n.targets):
+            return labelled(n.value)
+        if isinstance(n, ast.stmt):
+            for c in walk_own(n):
+                g = helpers.get(call_name(c).rsplit(".", 1)[-1]) if isinstance(c, ast.Call) else None
+                if g is None:
+                    continue
+                env = _bind_call(g, c)
+                mine = {p_ for p_, a in env.items() if isinstance(a, ast.Name) and a.id == who}
+                for m in ast.walk(g.node):
+                    if isinstance(m, ast.Assign) and any(isinstance(t, ast.Attribute) and t.attr == "header" and isinstance(t.value, ast.Name) and
+                                                         t.value.id in mine for t in m.targets):
+                        used = _text_sources(m.value, g.node) & set(env)
+                        behind = {x for p_ in used for x in _text_sources(env[p_], fd.node)}
+                        if behind & path_names and behind & method_names:
+                            return True
+        return False
+
+    bad: list[str] = []
+    n = 0
+    for st in cfg.stmts():
+        attached: list[ast.AST] = []
+        for c in walk_own(st):
+            if not isinstance(c, ast.Call):
+                continue
+            if isinstance(c.func, ast.Attribute) and c.func.attr in ("append", "extend") and isinstance(c.func.value, ast.Attribute) and \
+                    c.func.value.attr == "parse_errors" and c.args:
+                attached.append(c.args[0])
+            g = helpers.get(call_name(c).rsplit(".", 1)[-1])
+            if g is not None:
+                gp = {x.arg for x in g.params}
+                for m in ast.walk(g.node):
+                    if isinstance(m, ast.Call) and isinstance(m.func, ast.Attribute) and m.func.attr in ("append", "extend") and \
+                            isinstance(m.func.value, ast.Attribute) and m.func.value.attr == "parse_errors" and m.args and \
+                            isinstance(m.args[0], ast.Name) and m.args[0].id in gp and m.args[0].id in _bind_call(g, c):
+                        attached.append(_bind_call(g, c)[m.args[0].id])
+        for e in attached:
+            n += 1
+            if isinstance(e, ast.Name):
+                ok = sets_header(st, e.id) or cfg.is_dominated_by(st, lambda x, who=e.id: sets_header(x, who))
+            else:
+                ok = labelled(e)
+            if not ok:
+                bad.append(f"{norm(st)[:60]} @ line {getattr(st, 'lineno', 0)}")
+    return bad, n
 
 
 # ---- loops over document collections, found by what they iterate -------------------------------------------------------------------
@@ -578,14 +850,14 @@ def _iter_attrs(e: ast.AST, fn: ast.AST, depth: int = 3) -> set[str]:
 # ---- what happens to the item on each path through one iteration -------------------------------------------------------------------
 class _S:
     """facts that hold on the paths reaching a program point inside one iteration"""
-    __slots__ = ("rec", "keep", "pend", "absent", "err", "ok", "none")
+    __slots__ = ("rec", "keep", "pend", "absent", "err", "ok", "none", "errl")
 
     def __init__(self, rec: bool = False, keep: bool = False, pend: bool = False, absent: bool = False,
-                 err: frozenset = frozenset(), ok: frozenset = frozenset(), none: frozenset = frozenset()) -> None:
-        self.rec, self.keep, self.pend, self.absent, self.err, self.ok, self.none = rec, keep, pend, absent, err, ok, none
+                 err: frozenset = frozenset(), ok: frozenset = frozenset(), none: frozenset = frozenset(), errl: frozenset = frozenset()) -> None:
+        self.rec, self.keep, self.pend, self.absent, self.err, self.ok, self.none, self.errl = rec, keep, pend, absent, err, ok, none, errl
 
     def key(self) -> tuple:
-        return (self.rec, self.keep, self.pend, self.absent, self.err, self.ok, self.none)
+        return (self.rec, self.keep, self.pend, self.absent, self.err, self.ok, self.none, self.errl)
 
     def __hash__(self) -> int:
         return hash(self.key())
@@ -603,7 +875,8 @@ class _Iteration:
     """Path-sensitive walk over the body of a document loop.  Tracked per path: whether a diagnostic has been recorded (`rec`), whether
     something derived from the item has been stored where it outlives the iteration (`keep`), whether a value is known to be an error
     and has not been recorded since (`pend`), whether the item is known to be an empty slot (`absent`), and which names are known (not)
-    to hold an error / None - so that a test repeated later on the path is decided the same way (infeasible branches are not walked).
+    to hold an error / None / a non-empty list display with an error in it - so that a test repeated later on the path is decided the
+    same way (infeasible branches are not walked) and a loop over `[<the error>]` is known to run, with the error as its element.
     The shape of the code (early continue or nested if/else, which branch comes first) does not matter: only the paths do."""
 
     def __init__(self, f: Any, loops: dict[ast.For, str]) -> None:
@@ -675,6 +948,17 @@ class _Iteration:
                 t |= self._refine(st.test, s, True)
                 e |= self._refine(st.test, s, False)
             return self._seq(st.body, t) | (self._seq(st.orelse, e) if st.orelse else e)
+        if isinstance(st, (ast.Assign, ast.AnnAssign, ast.Return)) and isinstance(st.value, ast.IfExp):
+            # `x = A if T else B` is `if T: x = A` / `else: x = B`: the same decision, refined the same way
+            import copy
+
+            out_: set[_S] = set()
+            for want, arm in ((True, st.value.body), (False, st.value.orelse)):
+                half = copy.copy(st)
+                half.value = arm
+                sub = {x for s in states for x in self._refine(st.value.test, s, want)}
+                out_ |= self._stmt(half, sub) if sub else set()
+            return out_
         if isinstance(st, (ast.For, ast.AsyncFor, ast.While)):
             return self._inner_loop(st, states)
         if isinstance(st, ast.Try):
@@ -715,8 +999,13 @@ class _Iteration:
             # its items are accounted for on their own: for the enclosing iteration the nested document loop is where the item goes
             return {self._kill(s, _targets(st.target)).but(keep=True) for s in states}
         saved_ends = self.ends
-        once_at_least = isinstance(st, ast.For) and norm(st.iter) in self.fan_out
-        reached: set[_S] = set() if once_at_least else set(states)
+        fan = isinstance(st, ast.For) and norm(st.iter) in self.fan_out
+
+        def of_errors(s: _S) -> bool:
+            """the loop goes through a list display known (on this path) to hold an error: it runs, and its variable is that error"""
+            return isinstance(st, ast.For) and isinstance(st.iter, ast.Name) and st.iter.id in s.errl and isinstance(st.target, ast.Name)
+
+        reached: set[_S] = {s for s in states if not (fan or of_errors(s))}
         exits: set[_S] = set()
         frontier = set(states)
         seen: set[_S] = set()
@@ -724,7 +1013,12 @@ class _Iteration:
             frontier -= seen
             seen |= frontier
             self.ends = {}
-            entry = {self._kill(s, _targets(st.target)) if isinstance(st, ast.For) else s for s in frontier}
+            entry: set[_S] = set()
+            for s in frontier:
+                e_ = self._kill(s, _targets(st.target)) if isinstance(st, ast.For) else s
+                if of_errors(s):
+                    e_ = e_.but(err=e_.err | {st.target.id})
+                entry.add(e_)
             if isinstance(st, ast.While):
                 entry = {x for s in entry for x in self._refine(st.test, s, True)}
             out = self._seq(st.body, entry)
@@ -746,9 +1040,9 @@ class _Iteration:
 
     # -- facts
     def _kill(self, s: _S, names: set[str]) -> _S:
-        if not names or not ((s.err | s.ok | s.none) & names):
+        if not names or not ((s.err | s.ok | s.none | s.errl) & names):
             return s
-        return s.but(err=s.err - names, ok=s.ok - names, none=s.none - names)
+        return s.but(err=s.err - names, ok=s.ok - names, none=s.none - names, errl=s.errl - names)
 
     def _is_error_value(self, e: ast.AST, s: _S) -> bool:
         if constructs_error(e):
@@ -809,6 +1103,10 @@ class _Iteration:
                     keep = True  # the item's outcome, verified not to be an error on this path, becomes the state carried on
         bound = {n.id for n in walk_own(st) if isinstance(n, ast.Name) and isinstance(n.ctx, ast.Store)}
         out = self._kill(s, bound)
+        if isinstance(st, (ast.Assign, ast.AnnAssign)) and isinstance(st.value, (ast.List, ast.Tuple)) and \
+                any(constructs_error(x) or (isinstance(x, ast.Name) and x.id in s.err) for x in st.value.elts):
+            tgts = st.targets if isinstance(st, ast.Assign) else [st.target]
+            out = out.but(errl=out.errl | {t.id for t in tgts if isinstance(t, ast.Name)})
         if rec:
             out = out.but(rec=True, pend=False)
         if keep:
